@@ -229,6 +229,39 @@ def run(tier, seed):
               [fr(o["recall"]), fr(o["fa"]), fr(o["rpa"]), fr(o["rca"]), fr(o["oa"])], d)
         ev.case(("melrs", r["ref"], r["est"]), nontrivial=r["ref"]["t"] != r["est"]["t"])
     ev.sample({"model": "MC_C04_melrs", "row": mrow[len(mrow) // 2]})
+    # general pre-processing: explicit (continuous) voicing / reward, kinds linear|zero|nearest, constant hop
+    res = tlc.run("MC_C04_melk", cfg="MC_C04_melk_T" if thorough else "MC_C04_melk", timeout=3400, heap="8g", deadlock=False)
+    krow = res["rows"]["ROW"]
+    if len(krow) * 2 != res["distinct"]:
+        raise Machinery("MC_C04_melk: %d rows for %d states" % (len(krow), res["distinct"]))
+    ev.tlc("MC_C04_melk", res, "MelodyPre!ToCentVoicingK (freq_to_voicing, padding, hop base, three kinds, cut/pad) + measures; invariants Sane, SelfPerfect")
+    KU = 1.0 / 128
+
+    def wseries(s_):
+        t = np.array(s_["t"], dtype=float) * KU
+        f = np.array([0.0 if c == 0 else 10.0 * 2.0 ** (c / 1200.0) for c in s_["c"]])
+        w = np.array([fr(x) for x in s_["w"]])
+        return t, f, w
+    step = 3 if thorough else 9
+    for k, r in enumerate(krow):
+        if (k + seed) % step:
+            continue
+        rt, rf, rw = wseries(r["ref"])
+        et, ef, ew = wseries(r["est"])
+        o = r["out"]
+        kw = {"kind": r["kind"]}
+        if r["hop"]:
+            kw["hop"] = r["hop"] * KU
+        d = {"ref_time": rt.tolist(), "ref_freq": rf.tolist(), "ref_reward": rw.tolist(), "est_time": et.tolist(), "est_freq": ef.tolist(),
+             "est_voicing": ew.tolist(), "kw": kw}
+        want_cv = [fr(x) for key in ("rv", "rc", "ev", "ec") for x in o["cv"][key]]
+        check("melody.to_cent_voicing",
+              lambda: np.concatenate([np.asarray(a, dtype=float) for a in me.melody.to_cent_voicing(rt, rf, et, ef, est_voicing=ew, ref_reward=rw, **kw)]),
+              want_cv, d, cls="to_cent_voicing-differs")
+        check("melody.evaluate", lambda: list(me.melody.evaluate(rt, rf, et, ef, est_voicing=ew, ref_reward=rw, **kw).values()),
+              [fr(o["recall"]), fr(o["fa"]), fr(o["rpa"]), fr(o["rca"]), fr(o["oa"])], d)
+        ev.case(("melk", r["ref"], r["est"], r["hop"], r["kind"]), nontrivial=r["ref"]["t"] != r["est"]["t"] or bool(r["hop"]))
+    ev.sample({"model": "MC_C04_melk", "row": krow[len(krow) // 2]})
     # pattern discovery scores
     res = tlc.run("MC_C04_pattern", cfg="MC_C04_pattern", timeout=3000, heap="8g")
     prow = res["rows"]["ROW"]
